@@ -93,6 +93,9 @@ func c04Main(c *core.Ctx) {
 		warm.Sets = run.Sets
 	}
 	c.Begin(map[string]interface{}{"model": model, "run": run, "warmup_for_hot_states": warm})
+	if c.R.Bool(map[bool]float64{true: 0.4, false: 0.08}[needsWidthClass(model)]) { // (models that derive tables from a parameter: more often)
+		HostileHistory(c, model, run.Sets)
+	}
 	if len(run.Surplus) > 0 {
 		c.Tag("surplus-wider-table")
 	}
